@@ -1331,7 +1331,7 @@ def plot_clause(ctx, hook=None):
         ctx.cov['plots'] = 'matplotlib unavailable: %r' % (e,)
         return
     rng = ctx.rng
-    for trial in range(ctx.scale(2, 8)):
+    for trial in range(ctx.scale(4, 12)):
         D = gen_panel_def(rng, plain=True)
         D.update(model='none', alphaGiven=False, y12='none')
         p = build_panel(D)
@@ -1346,8 +1346,16 @@ def plot_clause(ctx, hook=None):
             fig = plt.figure()
             ax = fig.add_subplot(111)
             plot_raised = False
+            # rarely used options: a deformed contour, the caller's own (float64, C-ordered) evaluation grids, an inverted axis
+            kw = dict(vec=rng.choice(['w', 'u', 'exx', 'Nxx']), gridx=4, gridy=5, ax=ax, deform_u=(trial % 2 == 1),
+                      invert_y=(trial % 3 == 2))
+            gx, gy = np.meshgrid(np.linspace(0., float(p.a), 5), np.linspace(0., float(p.b), 4))
+            gx, gy = np.ascontiguousarray(gx, dtype=np.float64), np.ascontiguousarray(gy, dtype=np.float64)
+            gb = digest(gx), digest(gy)
+            if trial % 4 in (1, 2):
+                kw.update(xs=gx, ys=gy)
             try:
-                p.plot(A.c2, vec=rng.choice(['w', 'u', 'exx', 'Nxx']), gridx=4, gridy=5, ax=ax)
+                p.plot(A.c2, **kw)
             except ValueError as e:                       # matplotlib refuses a constant field
                 if 'levels' not in str(e):
                     raise
@@ -1358,6 +1366,11 @@ def plot_clause(ctx, hook=None):
         ctx.evaluations += 3
         if digest(A.c2) != cb:
             ctx.violation('Panel.plot modified the caller-supplied c', dict(kind='plot', definition=D))
+            return
+        if (digest(gx), digest(gy)) != gb:
+            ctx.violation('Panel.plot(%s) modified the caller-supplied evaluation grids xs / ys in place'
+                          % ', '.join('%s=%r' % (k, v) for k, v in kw.items() if k in ('vec', 'deform_u', 'invert_y')),
+                          dict(kind='plot', definition=D, options={k: v for k, v in kw.items() if k in ('vec', 'deform_u', 'invert_y')}))
             return
         if not plot_raised and not same_result(stored, after):
             ctx.violation('Panel.plot did not restore the stored displacement field', dict(kind='plot', definition=D))
